@@ -1173,6 +1173,8 @@ func rebaseIndex(bv, body string) string {
 	if len(order) == 0 {
 		return body
 	}
+	// several slices with different offsets may share the bound variable: the most frequent offset wins (the others'
+	// indices become (+ off2 (- i off1)); where that hurts, `option relative-index` switches the rewriting off)
 	best := order[0]
 	for _, o := range order {
 		if counts[o] > counts[best] {
